@@ -12,6 +12,28 @@ _M = "esrally/metrics.py"
 _R = "esrally/racecontrol.py"
 
 
+def drain_before_drive_rule(chk, rid, drv):
+    """Worker.receiveMsg_WakeupMessage: drive() replaces the sampler when the next row holds tasks, so on the wake-up that finds the executor finished the old sampler must have
+    been drained (send_samples) before drive() is reached — shared with C04 (one sample per executed request also survives a task switch without a join point)."""
+    from sa import pat
+    W = drv.cls("Worker")
+    wk = drv.methods(W).get("receiveMsg_WakeupMessage")
+    if wk is None:
+        raise AnchorMissing("Worker.receiveMsg_WakeupMessage")
+    gk = cfg_of(wk)
+    dcalls = [c for c in source.calls_in(wk, attr="drive") if u(c.func) == "self.drive"]
+    drains = [c for c in walk_body(wk) if isinstance(c, ast.Call) and last_attr(c.func) == "send_samples"]
+    n_live = 0
+    for c in dcalls:
+        if pat.guarded(c, "self.start_driving") is not None:
+            continue  # start of a step: the sampler was drained and dropped at the join point
+        n_live += 1
+        ok = bool(drains) and gk.dominated_by_nodes(gk.node_of(c), [gk.node_of(d) for d in drains])
+        chk.ob(rid, "wake-up that moves on to the next row drains the sampler before drive() replaces it", ok, c, "" if ok else "drive() is reached without send_samples(): a following task row replaces the sampler undrained",
+               key="esrally/driver/driver.py:Worker.receiveMsg_WakeupMessage:drain-before-drive")
+    chk.ob(rid, "executor-finished branch located in the wake-up handler", n_live >= 1, wk, f"{n_live} drive() call(s) outside the start-of-step branch")
+
+
 def flush_no_fallible_gap(chk, rid, met):
     """EsMetricsStore.flush: between the acknowledged bulk send and emptying the buffer no other store-client call can run (shared with C17): if such a call raises,
     the already-indexed documents stay buffered and the next flush / close sends them a second time."""
@@ -402,23 +424,28 @@ def run(chk):
     wk = wm.get("receiveMsg_WakeupMessage")
     ok = any(isinstance(n, ast.Call) and last_attr(n.func) == "send_samples" for n in walk_body(wk))
     chk.ob("O7.9", "periodic drain on wake-up", ok, wk, "")
-    # drive() replaces the sampler when the next row holds tasks: on the wake-up that finds the executor finished, the old sampler must have been drained first
-    from sa import pat
-    gk = cfg_of(wk)
-    dcalls = [c for c in source.calls_in(wk, attr="drive") if u(c.func) == "self.drive"]
-    drains = [c for c in walk_body(wk) if isinstance(c, ast.Call) and last_attr(c.func) == "send_samples"]
-    n_live = 0
-    for c in dcalls:
-        if pat.guarded(c, "self.start_driving") is not None:
-            continue  # start of a step: the sampler was drained and dropped at the join point
-        n_live += 1
-        ok = bool(drains) and gk.dominated_by_nodes(gk.node_of(c), [gk.node_of(d) for d in drains])
-        chk.ob("O7.9", "wake-up that moves on to the next row drains the sampler before drive() replaces it", ok, c, "" if ok else "drive() is reached without send_samples(): a following task row replaces the sampler undrained",
-               key=f"{_D}:Worker.receiveMsg_WakeupMessage:drain-before-drive")
-    chk.ob("O7.9", "executor-finished branch located in the wake-up handler", n_live >= 1, wk, f"{n_live} drive() call(s) outside the start-of-step branch")
+    drain_before_drive_rule(chk, "O7.9", drv)
     repl = [n for n in walk_body(wd) if isinstance(n, ast.Assign) and any(is_self_attr(t, "sampler") for t in n.targets) and isinstance(n.value, ast.Call)]
     others = [n for f_ in wm.values() if f_ is not wd and f_.name != "__init__" for n in walk_body(f_) if isinstance(n, ast.Assign) and any(is_self_attr(t, "sampler") for t in n.targets)]
     chk.ob("O7.9", "the sampler is replaced only in drive()", bool(repl) and not others, others[0] if others else wd, "")
+
+    # ---- O7.11 the sample type a record carries ----------------------------------------------------------------------------------------------
+    chk.rule("O7.11", "the sample type of a record is the one the schedule computed for that request, and the clock it is computed from starts at the task's start, "
+             "not after the client's ramp-up wait", 2,
+             "a task with ramp-up: requests issued after the warm-up period by a late-starting client are recorded as warm-up samples and vanish from every statistic")
+    from rules.C05 import timer_before_rampup_rule
+
+    ex, ge, *_ = timer_before_rampup_rule(chk, "O7.11", drv, "the warm-up clock of client i starts ramp*i/total late: its normal samples are labelled warm-up")
+    # the loop variable that carries the schedule's sample type is what the sampler receives
+    loops_ = [n for n in walk_body(ex) if isinstance(n, ast.AsyncFor)]
+    tnames = [e.id for e in (loops_[0].target.elts if isinstance(loops_[0].target, ast.Tuple) else [loops_[0].target]) if isinstance(e, ast.Name)]
+    adds = [c for c in source.calls_in(ex, attr="add") if u(c.func).endswith("sampler.add")]
+    if not adds:
+        raise AnchorMissing("sampler.add in AsyncExecutor.__call__")
+    for c in adds:
+        st = [a for a in c.args if isinstance(a, ast.Name) and "sample_type" in a.id]
+        ok = len(st) == 1 and st[0].id in tnames
+        chk.ob("O7.11", "sampler.add receives the sample type yielded by the schedule for this request", ok, c, f"{[a.id for a in st]} of loop targets {tnames}")
 
 
 from sa.selftest import V  # noqa: E402
